@@ -309,7 +309,82 @@ class ElseAfterReturn(ast.NodeTransformer):
         return stmts
 
 
-TRANSFORMS = {"eqswap": EqSwap, "cmpflip": CmpFlip, "ifinvert": IfInvert, "notcmp": NotCmp, "augexpand": AugExpand, "annotate": Annotate, "fstring": FString, "methodorder": MethodOrder, "isimerge": IsinstanceMerge, "unelse": UnElse, "elseafter": ElseAfterReturn,
+class CompToLoop(ast.NodeTransformer):
+    """`x = [elt for a in b if c]` (one generator, plain name target not used inside) -> `x = []` + for/if/append loop."""
+
+    def _fix(self, stmts):
+        out = []
+        for st in stmts:
+            if isinstance(st, ast.Assign) and len(st.targets) == 1 and isinstance(st.targets[0], ast.Name) \
+                    and isinstance(st.value, ast.ListComp) and len(st.value.generators) == 1 and not st.value.generators[0].is_async:
+                g = st.value.generators[0]
+                name = st.targets[0].id
+                used = {x.id for x in ast.walk(st.value) if isinstance(x, ast.Name)}
+                bound = {x.id for x in ast.walk(g.target) if isinstance(x, ast.Name)}
+                if name not in used and not (bound & {name}):
+                    app = ast.Expr(value=ast.Call(func=ast.Attribute(value=ast.Name(id=name, ctx=ast.Load()), attr="append", ctx=ast.Load()),
+                                                  args=[st.value.elt], keywords=[]))
+                    body = [app]
+                    for c in reversed(g.ifs):
+                        body = [ast.If(test=c, body=body, orelse=[])]
+                    loop = ast.For(target=g.target, iter=g.iter, body=body, orelse=[])
+                    init = ast.Assign(targets=[ast.Name(id=name, ctx=ast.Store())], value=ast.List(elts=[], ctx=ast.Load()))
+                    for n in (init, loop):
+                        ast.copy_location(n, st)
+                        ast.fix_missing_locations(n)
+                    out.extend([init, loop])
+                    continue
+            out.append(st)
+        return out
+
+    def generic_visit(self, node):
+        super().generic_visit(node)
+        if isinstance(node, (ast.Module, ast.ClassDef)):
+            return node         # module / class level constants stay displays
+        for f in ("body", "orelse", "finalbody"):
+            b = getattr(node, f, None)
+            if isinstance(b, list) and b and isinstance(b[0], ast.stmt):
+                setattr(node, f, self._fix(b))
+        return node
+
+
+class LoopGuard(ast.NodeTransformer):
+    """reduce nesting: a loop body that ends in `if c: BODY` (no else) -> `if not c: continue` followed by BODY"""
+
+    def _loop(self, node):
+        self.generic_visit(node)
+        if node.body and isinstance(node.body[-1], ast.If) and not node.body[-1].orelse:
+            last = node.body[-1]
+            guard = ast.If(test=ast.UnaryOp(op=ast.Not(), operand=last.test), body=[ast.Continue()], orelse=[])
+            ast.copy_location(guard, last)
+            ast.fix_missing_locations(guard)
+            node.body = node.body[:-1] + [guard] + last.body
+        return node
+
+    visit_For = _loop
+    visit_While = _loop
+
+
+class LoopNest(ast.NodeTransformer):
+    """the inverse: `if c: continue` followed by REST at the end of a loop body -> `if not c: REST`"""
+
+    def _loop(self, node):
+        self.generic_visit(node)
+        for i, st in enumerate(node.body):
+            if isinstance(st, ast.If) and not st.orelse and len(st.body) == 1 and isinstance(st.body[0], ast.Continue) and i + 1 < len(node.body):
+                rest = node.body[i + 1:]
+                new = ast.If(test=ast.UnaryOp(op=ast.Not(), operand=st.test), body=rest, orelse=[])
+                ast.copy_location(new, st)
+                ast.fix_missing_locations(new)
+                node.body = node.body[:i] + [new]
+                break
+        return node
+
+    visit_For = _loop
+    visit_While = _loop
+
+
+TRANSFORMS = {"eqswap": EqSwap, "cmpflip": CmpFlip, "ifinvert": IfInvert, "notcmp": NotCmp, "augexpand": AugExpand, "annotate": Annotate, "fstring": FString, "methodorder": MethodOrder, "isimerge": IsinstanceMerge, "unelse": UnElse, "elseafter": ElseAfterReturn, "comp2loop": CompToLoop, "loopguard": LoopGuard, "loopnest": LoopNest,
               "passpad": PassPad, "rename": Rename}
 
-SILENT_VARIANTS = ("eqswap", "cmpflip", "ifinvert", "notcmp", "augexpand", "passpad", "annotate", "fstring", "methodorder", "isimerge", "unelse", "elseafter")
+SILENT_VARIANTS = ("eqswap", "cmpflip", "ifinvert", "notcmp", "augexpand", "passpad", "annotate", "fstring", "methodorder", "isimerge", "unelse", "elseafter", "comp2loop", "loopguard", "loopnest")
